@@ -1089,10 +1089,18 @@ impl Model {
                 if !is_qname(name) || name.starts_with("xmlns") {
                     let mut p = Plan::lenient("name is a Name but not a usable QName");
                     p.adopt = vec![e];
+                    if let Some(a) = self.find_attr(e, local_of(name)) {
+                        p.adopt.push(a);
+                    }
                     return p;
                 }
                 let mut p = self.plan_attr_value(value);
                 p.adopt = vec![e];
+                // an attribute of that name that is already there keeps its node and gets new value pieces
+                // (their identity is adopted; the value itself is judged against the literal string)
+                if let Some(a) = self.find_attr(e, local_of(name)) {
+                    p.adopt.push(a);
+                }
                 p
             }
             Op::RemoveAttribute { el, .. } => match ns(el) {
